@@ -12,8 +12,10 @@
 (*   iast     projection of the parsed object to the ast vocabulary         *)
 (*   rest     the input left unconsumed                                     *)
 (*   mut      outcomes (as `out`) of the byte-level mutations of the text   *)
-(*   e2e      [ran, ntag, status, others, usable]: the text sent through    *)
-(*            the real IMAPClientProxy.run                                  *)
+(*   e2e      [ran, ntag, status, others, usable, handed]: the text sent    *)
+(*            through the real IMAPClientProxy.run; handed = the text the   *)
+(*            proxy constructed the parser with                             *)
+(*   text     the text itself                                               *)
 (***************************************************************************)
 EXTENDS Naturals, Sequences, FiniteSets, TLC
 
@@ -47,14 +49,15 @@ CaseBad(c) ==
   \cup (IF c.verdict = "OK" /\ c.out = "parsed" /\ c.rest \notin {"", CRLF} THEN {"C08.NothingLeft"} ELSE {})
   \cup (IF c.e2e[1] = "yes" /\ ~(c.e2e[2] = "1" /\ c.e2e[3] = "BAD" /\ c.e2e[4] = "0" /\ c.e2e[5] = "yes")
         THEN {"C08.BadReachesClient"} ELSE {})
+  \cup (IF c.e2e[1] = "yes" /\ c.e2e[6] # c.text THEN {"C08.OctetsReachParser"} ELSE {})
 
 (* sanity of the verdict layer *)
-NoE2E == <<"no", "0", "NONE", "0", "no">>
-Good == [cat |-> "ok", verdict |-> "OK", ast |-> <<"tag:a1", "cmd", "select", "nouid", "m:INBOX">>,
+NoE2E == <<"no", "0", "NONE", "0", "no", "">>
+Good == [text |-> "a1 SELECT INBOX", cat |-> "ok", verdict |-> "OK", ast |-> <<"tag:a1", "cmd", "select", "nouid", "m:INBOX">>,
          out |-> "parsed", iast |-> <<"tag:a1", "cmd", "select", "nouid", "m:inbox">>, rest |-> "",
          mut |-> <<"bad", "parsed">>, e2e |-> NoE2E]
 Neg == [Good EXCEPT !.cat = "garbage", !.verdict = "BAD", !.out = "bad", !.iast = <<>>,
-                    !.e2e = <<"yes", "1", "BAD", "0", "yes">>]
+                    !.e2e = <<"yes", "1", "BAD", "0", "yes", "a1 SELECT INBOX">>]
 OracleSane ==
     /\ CaseBad(Good) = {}
     /\ CaseBad([Good EXCEPT !.rest = CRLF]) = {}
@@ -66,8 +69,9 @@ OracleSane ==
     /\ CaseBad([Good EXCEPT !.mut = <<"bad", "hang">>]) = {"C08.TotalUnderMutation"}
     /\ CaseBad(Neg) = {}
     /\ CaseBad([Neg EXCEPT !.out = "parsed"]) = {"C08.RejectsInvalid"}
-    /\ CaseBad([Neg EXCEPT !.e2e = <<"yes", "0", "NONE", "0", "no">>]) = {"C08.BadReachesClient"}
-    /\ CaseBad([Neg EXCEPT !.e2e = <<"yes", "1", "BAD", "0", "no">>]) = {"C08.BadReachesClient"}
+    /\ CaseBad([Neg EXCEPT !.e2e = <<"yes", "0", "NONE", "0", "no", "a1 SELECT INBOX">>]) = {"C08.BadReachesClient"}
+    /\ CaseBad([Neg EXCEPT !.e2e = <<"yes", "1", "BAD", "0", "no", "a1 SELECT INBOX">>]) = {"C08.BadReachesClient"}
+    /\ CaseBad([Neg EXCEPT !.e2e = <<"yes", "1", "BAD", "0", "yes", "a1 SELECT INBO">>]) = {"C08.OctetsReachParser"}
     /\ SameDenotation(<<"i:4:2", "s:Hello World">>, <<"i:2:4", "s:hello world">>)
     /\ ~SameDenotation(<<"m:inboxes">>, <<"m:inbox">>)
 =============================================================================
